@@ -18,6 +18,7 @@ struct Mk {
   MAKE_MOCK1(v, void(int));
   MAKE_CONST_MOCK1(cf, int(int));
   MAKE_MOCK2(g, int(int, int));
+  MAKE_MOCK12(w, int(int, int, int, int, int, int, int, int, int, int, int, int));
 };
 // the same functions on a mock class that is NOT movable (the library's default; another
 // specialisation of its expectation lists). Object slot OBJ_FIXED holds this type.
@@ -29,6 +30,7 @@ struct MkN {
   MAKE_MOCK1(v, void(int));
   MAKE_CONST_MOCK1(cf, int(int));
   MAKE_MOCK2(g, int(int, int));
+  MAKE_MOCK12(w, int(int, int, int, int, int, int, int, int, int, int, int, int));
 };
 
 struct Dwt {
